@@ -208,7 +208,7 @@ func calleeName(c *ssa.CallCommon) string {
 		return "(" + types.TypeString(c.Value.Type(), shortQual) + ")." + c.Method.Name()
 	}
 	if f := c.StaticCallee(); f != nil {
-		return f.RelString(nil)
+		return shortName(FullName(f))
 	}
 	if b, ok := c.Value.(*ssa.Builtin); ok {
 		return b.Name()
@@ -518,7 +518,9 @@ func (g *vcgen) load(x *ssa.UnOp) {
 		g.setValFresh(x)
 		return
 	}
-	if _, isAlloc := x.X.(*ssa.Alloc); !isAlloc {
+	_, isAlloc := x.X.(*ssa.Alloc)
+	_, isCell := x.X.(*ssa.FreeVar)
+	if !isAlloc && !isCell {
 		g.nonNil(p, origin(x.X))
 	}
 	g.setVal(x, g.loadPtr(g.st, p, elem))
@@ -554,7 +556,9 @@ func (g *vcgen) store(x *ssa.Store) {
 		}
 	}
 	p := g.val(x.Addr)
-	if _, isAlloc := x.Addr.(*ssa.Alloc); !isAlloc {
+	_, isAlloc := x.Addr.(*ssa.Alloc)
+	_, isCell := x.Addr.(*ssa.FreeVar)
+	if !isAlloc && !isCell {
 		g.nonNil(p, origin(x.Addr))
 	}
 	g.storePtr(p, elem, v)
